@@ -27,12 +27,13 @@ def shards(tier, seed):
     return out
 
 
-def mask_of(byte, msb, width):
-    """library notation [mask, offset] for reference field (byte, msb, width)"""
+def mask_of(byte, msb, width, extra=0):
+    """library notation [mask, offset] for reference field (byte, msb, width); `extra` whole zero bytes are appended to
+    the span (a non-minimal but legitimate way to write the same field, e.g. [0x8000, n] for bit 7 of byte n)"""
     lead = 7 - msb
     nbytes = (lead + width + 7) // 8
     trail = 8 * nbytes - lead - width
-    return [((1 << width) - 1) << trail, byte], nbytes
+    return [((1 << width) - 1) << (trail + 8 * extra), byte], nbytes + extra
 
 
 def field_of(mask, off):
@@ -53,7 +54,7 @@ def gen_layout(rng, size):
     """random non-overlapping fields inside `size` bytes (reference notation)"""
     used = set()
     fields = []
-    for _ in range(rng.randint(1, 8)):
+    for _ in range(rng.choice([1, 2, 3, 4, 6, 8, 12, 13, 16, 24])):
         for _try in range(20):
             kind = rng.random()
             if kind < 0.75:
@@ -88,7 +89,14 @@ def run_layout_case(ctx, conv, R, rng, size, fields, used, values=None, tag="lay
     for name, f in zip(names, fields):
         if f[0] == "m":
             _k, byte, msb, width = f
-            check[name], _n = mask_of(byte, msb, width)
+            extra = 0
+            if rng.random() < 0.15:
+                extra = rng.choice([1, 2])
+                if byte + (7 - msb + width + 7) // 8 + extra > size:
+                    extra = 0
+            check[name], _n = mask_of(byte, msb, width, extra)
+            if extra:
+                ctx.count("non_minimal_span_masks")
             vals[name] = rng.getrandbits(width) if values is None else values[name]
             if width > 8 or (7 - msb + width) % 8 or msb != 7:
                 nontrivial = True
@@ -203,6 +211,14 @@ def run(shard, ctx):
                 if back != v or back != R.from_be(ba):
                     ctx.fail("C10:ba_to_int", "scsi_ba_to_int(%s) = %#x" % (bytes(ba).hex(), back), {"value": v, "size": size})
                 ctx.count("int_roundtrips")
+                # the caller owns the result: changing it must not influence a later conversion of the same value
+                if size:
+                    ba[0] ^= 0xFF
+                ba += b"\x55"
+                again = conv.scsi_int_to_ba(v, size)
+                if again is ba or bytes(again) != bytes(R.be(v, size)):
+                    ctx.fail("C10:int_to_ba.result_depends_on_history", "scsi_int_to_ba(%#x,%d) after the caller changed an earlier result = %s" % (v, size, bytes(again).hex()),
+                             {"value": v, "size": size})
             for _ in range(200):
                 b = bytes(rng.getrandbits(8) for _ in range(size))
                 ctx.case(("ba", b), size >= 2)
@@ -222,7 +238,7 @@ def run(shard, ctx):
                     if width <= 10 and shard.get("tier") != "thorough" and width > 8:
                         values = list(range(0, 1 << width, 3)) + [(1 << width) - 1]
                     for v in values:
-                        run_layout_case(ctx, conv, R, rng, size, [f], used, values={"f0": v}, tag="sweep")
+                        run_layout_case(ctx, conv, R, rng, size + 2, [f], used, values={"f0": v}, tag="sweep")
         ctx.count("sweep_done")
         return
     if sid == "invivo":
